@@ -68,6 +68,144 @@ SUBS = {
 }
 GUARDS = ["if self._face_id is None:\n    self._compute_face_ids()", "if self._edge_id is None:\n    self._compute_edge_id()"]
 
+# ----------------------------------------------------------------------------------------------------------------------
+# _compute_connectivity (corner tables, half-edge table, opposite pass) and the accessors that read these caches
+# ----------------------------------------------------------------------------------------------------------------------
+def _subst(node, name, repl):
+    import copy
+
+    class R(ast.NodeTransformer):
+        def visit_Name(self, n):
+            return copy.deepcopy(repl) if n.id == name else n
+    return R().visit(copy.deepcopy(node))
+
+
+def _genexp_unpack(c, b, env, nxt, ind, exits):
+    """`a, b, c = (e(p) for p in (x, y, z))`  ==  `a, b, c = e(x), e(y), e(z)`"""
+    p = b["M_p"]
+    if not isinstance(p, ast.Name): return None
+    vals = [_subst(b["M_e"], p.id, b[k]) for k in ("M_x", "M_y", "M_z")]
+    tgt = ast.Tuple([b["M_a"], b["M_b"], b["M_c"]], ast.Store())
+    return c.assign(tgt, ast.Tuple(vals, ast.Load()), env, nxt, ind, exits)
+
+
+def _he_set_opp(c, b, env, nxt, ind, exits):
+    pre = []
+    k, tk = c.E(b["M_k"], env, pre); v, tv = c.E(b["M_v"], env, pre)
+    if pre or tk != "(Nat × Nat)" or tv != "Option Nat" or "p0._half_edges" not in env: raise c.err("unsupported write into a half-edge entry")
+    return f"{ind}let p0__half_edges : HEDict := heSetOpp p0__half_edges {k} {v}\n" + nxt(env)
+
+
+def _v2cn_add(c, b, env, nxt, ind, exits):
+    pre = []
+    v, _ = c.E(b["M_v"], env, pre); x, _ = c.E(b["M_c"], env, pre)
+    if pre or "p0._adjV2Cn" not in env: raise c.err("unsupported `.add` on a corner set")
+    return f"{ind}let p0__adjV2Cn : V2Cn := v2cnAdd p0__adjV2Cn {v} {x}\n" + nxt(env)
+
+
+CC_EXPRS = [
+    ("dict([(M_i, set()) for M_i in self.mesh.id_vertices])", "(List.replicate S.nv ([] : List Nat))", "V2Cn"),
+    ("self.mesh.id_vertices", "(List.range S.nv)", "List Nat"),
+    ("self.mesh.id_corners", "(List.range S.fc.length)", "List Nat"),
+    ("self.mesh.face_corners.element(M_c)", "(S.fc.getD {c} (0, 0)).1", "Nat"),
+    ("self.mesh.face_corners.adj(M_c)", "(S.fc.getD {c} (0, 0)).2", "Nat"),
+    ("M_k not in self._adjF2Cn", "(!(dictHas p0__adjF2Cn {k}))", "Bool"),
+    ("M_k in self._adjF2Cn", "(dictHas p0__adjF2Cn {k})", "Bool"),
+    ("self._adjVF2Cn[M_k]", "(dictGetD p0__adjVF2Cn {k})", "Nat"),
+    ("enumerate(self.mesh.faces)", "(S.faces.zipIdx.map fun p => (p.2, p.1))", "List (Nat × List Nat)"),
+    ("range(M_n)", "(List.range {n})", "List Nat"),
+    ("self._half_edges.keys()", "(p0__half_edges.map fun e => e.1)", "List (Nat × Nat)"),
+    ("self._half_edges.get(M_k, [None])[0]", "(heGet0 p0__half_edges {k})", "Option Nat"),
+    ("list(M_x)", "{x}", "List Nat"),
+]
+CC_SUBS = {
+    "VFDict": {"set": "({k}, {v}) :: {x}"}, "FDict": {"set": "({k}, {v}) :: {x}"}, "HEDict": {"set": "({k}, {v}) :: {x}"},
+    "CnDict": {"set": "({k}, {v}) :: {x}"}, "V2Cn": {"get": ("(v2cnGet {x} {k})", "List Nat", False), "set": "v2cnSet {x} {k} {v}"},
+    "List": {"get": ("({x}.getD {k} 0)", "Nat", False)},
+}
+CC_STMTS = [
+    ("M_a, M_b, M_c = (M_e for M_p in (M_x, M_y, M_z))", _genexp_unpack),
+    ("self._half_edges[M_k][3] = M_v", _he_set_opp),
+    ("self._adjV2Cn[M_v].add(M_c)", _v2cn_add),
+]
+CC_INITS = [("self._adjVF2Cn = dict()", "VFDict"), ("self._adjF2Cn = dict()", "FDict"), ("self._half_edges = dict()", "HEDict"), ("self._Cn2he = dict()", "CnDict")]
+# statements of `_compute_connectivity` that are recognised and left to the hand model (they must be there, in this shape)
+CC_REQUIRED = ["super()._compute_connectivity()",
+               "if config.sort_neighborhoods and isinstance(self.mesh, SurfaceMesh):\n    self._sort_vertex_neighborhoods()"]
+
+
+def _dict_init(ty):
+    def h(c, b, env, nxt, ind, exits):
+        env2 = dict(env); key = "p0." + ty[1]
+        env2[key] = ty[0]
+        return f"{ind}let {c.lname(key)} : {ty[0]} := []\n" + nxt(env2)
+    return h
+
+
+ACC_CTX = dict(ctx="(S : Surf) (p0__half_edges : HEDict) (p0__Cn2he : CnDict) (p0__adjVF2Cn : VFDict)", ctxargs="S p0__half_edges p0__Cn2he p0__adjVF2Cn",
+               init_env={"self._half_edges": "HEDict", "self._Cn2he": "CnDict", "self._adjVF2Cn": "VFDict"})
+ACC_GUARDS = ["if self._half_edges is None:\n    self._compute_connectivity()", "if self._Cn2he is None:\n    self._compute_connectivity()",
+              "if self._adjVF2Cn is None:\n    self._compute_connectivity()", "if self._adjV2Cn is None:\n    self._compute_connectivity()"]
+ACC_EXPRS = [
+    ("self._Cn2he.get(M_c, None)", "(dictFind p0__Cn2he {c})", "Option (Nat × Nat)"),
+    ("self._half_edges.get(M_k, [None])[0]", "(heGet0 p0__half_edges {k})", "Option Nat"),
+    ("self._half_edges[M_k][4:]", "(heInds p0__half_edges {k})", "(Option Nat × Option Nat × Option Nat)"),
+    ("self._half_edges[M_k][M_i]", "(heField p0__half_edges {k} {i})", "Option Nat"),
+    ("M_k in self._half_edges", "(dictHas p0__half_edges {k})", "Bool"),
+    ("M_k not in self._half_edges", "(!(dictHas p0__half_edges {k}))", "Bool"),
+    ("self._adjVF2Cn.get(M_k, None)", "(dictGet p0__adjVF2Cn {k})", "Option Nat"),
+    ("self.direct_face(M_a, M_b, True)", "(directFaceInds S p0__half_edges p0__Cn2he p0__adjVF2Cn {a} {b})", "(Option Nat × Option Nat × Option Nat)"),
+    ("self.direct_face(M_a, M_b)", "(directFace S p0__half_edges p0__Cn2he p0__adjVF2Cn {a} {b})", "Option Nat"),
+    ("self.corner_to_face(M_c)", "(Mouette.Surface.cornerToFace S {c})", "Option Nat"),
+    ("self.vertex_to_corners(M_v)", "(Mouette.Surface.vertexToCorners S {v})", "List Nat"),
+]
+ACCESSORS = [  # (lean name, python method, params, ptypes, ret, consts, doc)
+    ("previousCorner", "previous_corner", ["self", "C"], [None, "Nat"], "Option Nat", None),
+    ("nextCorner", "next_corner", ["self", "C"], [None, "Nat"], "Option Nat", None),
+    ("oppositeCorner", "opposite_corner", ["self", "C"], [None, "Nat"], "Option Nat", None),
+    ("cornerToHalfEdge", "corner_to_half_edge", ["self", "C"], [None, "Nat"], "Option (Nat × Nat)", None),
+    ("halfEdgeToCorner", "half_edge_to_corner", ["self", "u", "v"], [None, "Nat", "Nat"], "Option Nat", None),
+    ("vertexToCornerInFace", "vertex_to_corner_in_face", ["self", "V", "F"], [None, "Nat", "Nat"], "Option Nat", None),
+    ("directFace", "direct_face", ["self", "u", "v", "return_inds"], [None, "Nat", "Nat", None], "Option Nat", {"return_inds": False}),
+    ("directFaceInds", "direct_face", ["self", "u", "v", "return_inds"], [None, "Nat", "Nat", None], "(Option Nat × Option Nat × Option Nat)", {"return_inds": True}),
+    ("oppositeFace", "opposite_face", ["self", "u", "v", "F", "return_inds"], [None, "Nat", "Nat", "Nat", None], "Option Nat", {"return_inds": False}),
+    ("oppositeFaceInds", "opposite_face", ["self", "u", "v", "F", "return_inds"], [None, "Nat", "Nat", "Nat", None], "(Option Nat × Option Nat × Option Nat)", {"return_inds": True}),
+    ("vertexToFaces", "vertex_to_faces", ["self", "V"], [None, "Nat"], "List (Option Nat)", None),
+]
+CC_FUNCTIONS = ["SurfaceMesh._Connectivity._compute_connectivity"] + sorted({"SurfaceMesh._Connectivity." + a[1] for a in ACCESSORS})
+
+
+def cc_defs():
+    ts, _ = T.load(SURF)
+    fn = T.find_def(ts, "SurfaceMesh._Connectivity._compute_connectivity")
+    for req in CC_REQUIRED:
+        want = ast.unparse(ast.parse(req).body[0])
+        if sum(1 for st in fn.body if ast.unparse(st) == want) != 1:
+            raise TranslateError(f"_compute_connectivity: the statement `{req.splitlines()[0]} …` is not there (once, at top level)")
+    out = []
+    stmts = list(CC_STMTS) + [(src, _dict_init((ty, src.split(" = ")[0].split(".")[1]))) for src, ty in CC_INITS]
+    v = PL.Vocab(["self"], [None], exprs=CC_EXPRS, subs=CC_SUBS, stmts=stmts, drop=CC_REQUIRED, ctx="(S : Surf)", ctxargs="S",
+                 ret="(V2Cn × VFDict × FDict × HEDict × CnDict)",
+                 fall="(p0__adjV2Cn, p0__adjVF2Cn, p0__adjF2Cn, p0__half_edges, p0__Cn2he)")
+    out.append(PL.compile_function("computeConnectivity", fn, v,
+                                   "`SurfaceMesh._Connectivity._compute_connectivity`: (`_adjV2Cn` before sorting, `_adjVF2Cn`, `_adjF2Cn`, "
+                                   "`_half_edges`, `_Cn2he`); the call of the base class and the final sort are left to the model"))
+    for lean, py, params, ptypes, ret, consts in ACCESSORS:
+        v = PL.Vocab(params, ptypes, exprs=ACC_EXPRS, drop=ACC_GUARDS, ret=ret, consts=consts, **ACC_CTX)
+        out.append(PL.compile_function(lean, T.find_def(ts, "SurfaceMesh._Connectivity." + py), v,
+                                       f"`_Connectivity.{py}`" + (f" specialised to {consts}" if consts else "") + " on the filled caches"))
+    return "\n".join(out)
+
+
+CC_HEADER = ("import Mouette.Model.SurfSource\nset_option linter.unusedVariables false\nnamespace Mouette.Generated.C01HE\n"
+             "open Mouette.Surface Mouette.SurfSource\n\n")
+_ST = "(S : Surf) (p0__half_edges : HEDict) (p0__Cn2he : CnDict) (p0__adjVF2Cn : VFDict)"
+CC_FALLBACK = ("/- the translator refused the current source: stubs (the bridges of Props/C01Source do not hold for them) -/\n"
+               "def computeConnectivity (S : Surf) : (V2Cn × VFDict × FDict × HEDict × CnDict) := ([], [], [], [], [])\n" +
+               "".join(f"def {lean} {_ST}" + "".join(f" (p{i} : {t})" for i, t in enumerate(pt) if t) + f" : {ret} := " +
+                       ("[]" if ret.startswith("List") else "(none, none, none)" if ret.startswith("(") else "none") + "\n"
+                       for lean, py, pa, pt, ret, cs in ACCESSORS))
+
 FALLBACK = """/- the translator refused the current source: stubs (the bridges of Props/C01Source do not hold for them) -/
 def isEdgeOnBorder (S : Surf) (p1 : Nat) (p2 : Nat) : Bool := false
 def computeInteriorBoundaryEdges (S : Surf) : (List Nat × List Nat) := ([], [])
@@ -144,4 +282,12 @@ def translate_sites():
     r = T.site("surface.py+linear.py: bodies of is_edge_on_border, _compute_interior_boundary_edges, _compute_mesh_type, _compute_face_ids, "
                "face_id, _compute_edge_id, edge_id, edge_to_faces, face_to_edges, other_edge_end, vertex_to_edges translated statement by statement", site)
     T.write_generated("C01Src", (st["t"] if r["ok"] else FALLBACK) + "\nend Mouette.Generated.C01Src\n", HEADER)
-    return [r]
+
+    def site2():
+        st["cc"] = cc_defs()
+        return {"functions": CC_FUNCTIONS, "lean_defs": st["cc"].count("\ndef ") + st["cc"].startswith("def ")}
+    r2 = T.site("surface.py: body of _compute_connectivity (corner tables, half-edge table with its index expressions, opposite pass) and of the "
+                "accessors reading these caches (previous/next/opposite_corner, corner_to_half_edge, half_edge_to_corner, vertex_to_corner_in_face, "
+                "direct_face and opposite_face with and without return_inds, vertex_to_faces)", site2)
+    T.write_generated("C01HE", (st["cc"] if r2["ok"] else CC_FALLBACK) + "\nend Mouette.Generated.C01HE\n", CC_HEADER)
+    return [r, r2]
